@@ -619,57 +619,57 @@ theorem qn_checkTraffic (cfg : Cfg) (a : A) (evs : List Ev) : QN a (checkTraffic
 
 /-- the periodic section of `Spec.round` without the checks: the resets and the clocks -/
 def tailU (cfg : Cfg) (a : A) : A :=
-  let a := if cfg.timing && a.now - a.tTiming > 900 then { a with pubT := [], recvT := [], tTiming := a.now } else a
-  let a := if a.now - a.tTraffic > 1000 then { a with pubR := [], recvR := [], tTraffic := a.now, seq := a.seq + 1 } else a
-  if a.now - a.tInfo > 5000 then { a with tInfo := a.now } else a
+  let a := if cfg.timing && a.now - a.tTiming > cfg.pTiming then { a with pubT := [], recvT := [], tTiming := a.now } else a
+  let a := if a.now - a.tTraffic > cfg.pTraffic then { a with pubR := [], recvR := [], tTraffic := a.now, seq := a.seq + 1 } else a
+  if a.now - a.tInfo > cfg.pInfo then { a with tInfo := a.now } else a
 
 /-- the TIMING_MESSAGE clause of `Spec.tail`: the report is checked when the period has elapsed, and there must be no
     report before -/
 def timingPart (cfg : Cfg) (a : A) (evs : List Ev) : A :=
-  if cfg.timing && a.now - a.tTiming > 900 then checkTiming cfg a evs
+  if cfg.timing && a.now - a.tTiming > cfg.pTiming then checkTiming cfg a evs
   else a.chk (!(sends evs).any (fun p => match p.2.2.body with | .timing .. => true | _ => false)) "C18"
     "TIMING_MESSAGE sent before its period elapsed"
 
 /-- …then the tallies of the TIMING interval start afresh (`a0`: the state before the clause) -/
 def timingReset (cfg : Cfg) (a0 a : A) : A :=
-  if cfg.timing && a0.now - a0.tTiming > 900 then { a with pubT := [], recvT := [], tTiming := a.now } else a
+  if cfg.timing && a0.now - a0.tTiming > cfg.pTiming then { a with pubT := [], recvT := [], tTiming := a.now } else a
 
 /-- the MESSAGE_TRAFFIC clause of `Spec.tail` -/
 def trafficPart (cfg : Cfg) (a : A) (evs : List Ev) : A :=
-  if a.now - a.tTraffic > 1000 then checkTraffic cfg a evs else a
+  if a.now - a.tTraffic > cfg.pTraffic then checkTraffic cfg a evs else a
 
-def trafficReset (a0 a : A) : A :=
-  if a0.now - a0.tTraffic > 1000 then { a with pubR := [], recvR := [], tTraffic := a.now, seq := a.seq + 1 } else a
+def trafficReset (cfg : Cfg) (a0 a : A) : A :=
+  if a0.now - a0.tTraffic > cfg.pTraffic then { a with pubR := [], recvR := [], tTraffic := a.now, seq := a.seq + 1 } else a
 
-def infoReset (a : A) : A := if a.now - a.tInfo > 5000 then { a with tInfo := a.now } else a
+def infoReset (cfg : Cfg) (a : A) : A := if a.now - a.tInfo > cfg.pInfo then { a with tInfo := a.now } else a
 
 /-- `Spec.tail` in pieces -/
 theorem tail_parts (cfg : Cfg) (a : A) (evs : List Ev) :
     tail cfg a evs =
-      infoReset (trafficReset (timingReset cfg a (timingPart cfg a evs))
+      infoReset cfg (trafficReset cfg (timingReset cfg a (timingPart cfg a evs))
         (trafficPart cfg (timingReset cfg a (timingPart cfg a evs)) evs)) := rfl
 
 theorem tailU_fields (cfg : Cfg) (a : A) :
     (tailU cfg a).now = a.now ∧ (tailU cfg a).mods = a.mods ∧ (tailU cfg a).nAccepted = a.nAccepted ∧
     (tailU cfg a).fail = a.fail ∧ (tailU cfg a).buf = a.buf ∧ (tailU cfg a).w = a.w ∧ (tailU cfg a).errs = a.errs ∧
-    (tailU cfg a).tTiming = (if (cfg.timing && decide (a.now - a.tTiming > 900)) = true then a.now else a.tTiming) ∧
-    (tailU cfg a).tTraffic = (if a.now - a.tTraffic > 1000 then a.now else a.tTraffic) ∧
-    (tailU cfg a).seq = (if a.now - a.tTraffic > 1000 then a.seq + 1 else a.seq) ∧
-    (tailU cfg a).tInfo = (if a.now - a.tInfo > 5000 then a.now else a.tInfo) ∧
-    (tailU cfg a).pubT = (if (cfg.timing && decide (a.now - a.tTiming > 900)) = true then [] else a.pubT) ∧
-    (tailU cfg a).recvT = (if (cfg.timing && decide (a.now - a.tTiming > 900)) = true then [] else a.recvT) ∧
-    (tailU cfg a).pubR = (if a.now - a.tTraffic > 1000 then [] else a.pubR) ∧
-    (tailU cfg a).recvR = (if a.now - a.tTraffic > 1000 then [] else a.recvR) := by
-  by_cases h1 : (cfg.timing && decide (a.now - a.tTiming > 900)) = true <;>
-  by_cases h2 : a.now - a.tTraffic > 1000 <;>
-  by_cases h3 : a.now - a.tInfo > 5000 <;>
+    (tailU cfg a).tTiming = (if (cfg.timing && decide (a.now - a.tTiming > cfg.pTiming)) = true then a.now else a.tTiming) ∧
+    (tailU cfg a).tTraffic = (if a.now - a.tTraffic > cfg.pTraffic then a.now else a.tTraffic) ∧
+    (tailU cfg a).seq = (if a.now - a.tTraffic > cfg.pTraffic then a.seq + 1 else a.seq) ∧
+    (tailU cfg a).tInfo = (if a.now - a.tInfo > cfg.pInfo then a.now else a.tInfo) ∧
+    (tailU cfg a).pubT = (if (cfg.timing && decide (a.now - a.tTiming > cfg.pTiming)) = true then [] else a.pubT) ∧
+    (tailU cfg a).recvT = (if (cfg.timing && decide (a.now - a.tTiming > cfg.pTiming)) = true then [] else a.recvT) ∧
+    (tailU cfg a).pubR = (if a.now - a.tTraffic > cfg.pTraffic then [] else a.pubR) ∧
+    (tailU cfg a).recvR = (if a.now - a.tTraffic > cfg.pTraffic then [] else a.recvR) := by
+  by_cases h1 : (cfg.timing && decide (a.now - a.tTiming > cfg.pTiming)) = true <;>
+  by_cases h2 : a.now - a.tTraffic > cfg.pTraffic <;>
+  by_cases h3 : a.now - a.tInfo > cfg.pInfo <;>
   simp [tailU, h1, h2, h3]
 
 theorem tailU_errs (cfg : Cfg) (a : A) (e : List (String × String)) :
     tailU cfg { a with errs := e } = { tailU cfg a with errs := e } := by
-  by_cases h1 : (cfg.timing && decide (a.now - a.tTiming > 900)) = true <;>
-  by_cases h2 : a.now - a.tTraffic > 1000 <;>
-  by_cases h3 : a.now - a.tInfo > 5000 <;>
+  by_cases h1 : (cfg.timing && decide (a.now - a.tTiming > cfg.pTiming)) = true <;>
+  by_cases h2 : a.now - a.tTraffic > cfg.pTraffic <;>
+  by_cases h3 : a.now - a.tInfo > cfg.pInfo <;>
   simp [tailU, h1, h2, h3]
 
 theorem tailU_noErr_congr (cfg : Cfg) {a b : A} (h : b.noErr = a.noErr) : (tailU cfg b).noErr = (tailU cfg a).noErr := by
@@ -685,21 +685,21 @@ theorem noteAll_eq (cfg : Cfg) : ∀ (l : List (List Ev)) (a : A),
 theorem tail_noErr (cfg : Cfg) (a : A) (evs : List Ev) : (tail cfg a evs).noErr = (tailU cfg a).noErr := by
   unfold tail tailU
   dsimp only
-  have h8 : QN a (if (cfg.timing && decide (a.now - a.tTiming > 900)) = true then checkTiming cfg a evs
+  have h8 : QN a (if (cfg.timing && decide (a.now - a.tTiming > cfg.pTiming)) = true then checkTiming cfg a evs
       else a.chk (!(sends evs).any (fun p => match p.2.2.body with | .timing .. => true | _ => false)) "C18"
         "TIMING_MESSAGE sent before its period elapsed") := by
     split
     · exact qn_checkTiming cfg a evs
     · exact qn_chk _ _ _ _
-  generalize (if (cfg.timing && decide (a.now - a.tTiming > 900)) = true then checkTiming cfg a evs
+  generalize (if (cfg.timing && decide (a.now - a.tTiming > cfg.pTiming)) = true then checkTiming cfg a evs
       else a.chk (!(sends evs).any (fun p => match p.2.2.body with | .timing .. => true | _ => false)) "C18"
         "TIMING_MESSAGE sent before its period elapsed") = a8 at h8
   rw [eq_of_noErr h8]
   generalize a8.errs = e8
-  by_cases h1 : (cfg.timing && decide (a.now - a.tTiming > 900)) = true
+  by_cases h1 : (cfg.timing && decide (a.now - a.tTiming > cfg.pTiming)) = true
   · simp only [h1, if_true]
     have h10 := qn_checkTraffic cfg ({ a with errs := e8, pubT := [], recvT := [], tTiming := a.now } : A) evs
-    by_cases h2 : a.now - a.tTraffic > 1000
+    by_cases h2 : a.now - a.tTraffic > cfg.pTraffic
     · simp only [h2, if_true]
       rw [eq_of_noErr h10]
       split <;> rfl
@@ -707,7 +707,7 @@ theorem tail_noErr (cfg : Cfg) (a : A) (evs : List Ev) : (tail cfg a evs).noErr 
       split <;> rfl
   · simp only [h1, Bool.false_eq_true, if_false]
     have h10 := qn_checkTraffic cfg ({ a with errs := e8 } : A) evs
-    by_cases h2 : a.now - a.tTraffic > 1000
+    by_cases h2 : a.now - a.tTraffic > cfg.pTraffic
     · simp only [h2, if_true]
       rw [eq_of_noErr h10]
       split <;> rfl
